@@ -303,10 +303,12 @@ nextFileMatch:
 			}
 			path := d.subRepoPaths[d.repos[nextDoc]][s]
 			fileMatch.SubRepositoryPath = path
-			sr := md.SubRepoMap[path]
-			fileMatch.SubRepositoryName = sr.Name
-			if idx := d.branchIndex(nextDoc); idx >= 0 {
-				fileMatch.Version = sr.Branches[idx].Version
+			// The sub-repository need not list the branches of its parent.
+			if sr := md.SubRepoMap[path]; sr != nil {
+				fileMatch.SubRepositoryName = sr.Name
+				if idx := d.branchIndex(nextDoc); idx >= 0 && idx < len(sr.Branches) {
+					fileMatch.Version = sr.Branches[idx].Version
+				}
 			}
 		} else {
 			idx := d.branchIndex(nextDoc)
